@@ -23,6 +23,24 @@ EXTERNAL: dict[str, tuple[str, ...]] = {
 }
 
 
+def _annotations_of(m: Model, caller: FuncInfo, call: ast.Call) -> dict[str, str]:
+    """Parameter name -> annotation text of the resolved gallia callee (empty when unresolved)."""
+    fn = call.func
+    callee = None
+    if isinstance(fn, ast.Attribute) and isinstance(fn.value, ast.Name) and fn.value.id in ("self", "cls") and caller.cls is not None:
+        callee = m.resolve_method(caller.cls, fn.attr)
+    elif isinstance(fn, (ast.Name, ast.Attribute)):
+        try:
+            callee = m.resolve_expr(caller.module, fn, caller.cls)
+        except Exception:  # noqa: BLE001
+            callee = None
+    if isinstance(callee, ClassInfo):
+        callee = m.resolve_method(callee, "__init__")
+    if isinstance(callee, FuncInfo) and callee.module.name.startswith("gallia"):
+        return {k: ast.unparse(v) for k, v in callee.param_annotations().items() if v is not None}
+    return {}
+
+
 def _params_of(m: Model, caller: FuncInfo, call: ast.Call) -> tuple[list[str], str] | None:
     fn = call.func
     txt = ast.unparse(fn)
@@ -114,6 +132,14 @@ def lint_function(m: Model, f: FuncInfo) -> list[tuple[int, str]]:
         if got is None:
             continue
         params, cq = got
+        ann = _annotations_of(m, f, n)
+        for i, a in enumerate(n.args):
+            if i < len(params) and isinstance(a, ast.Constant) and params[i] in ann:
+                t = ann[params[i]].replace(" ", "")
+                lit = type(a.value).__name__
+                if (lit == "str" and t in ("int", "float", "bytes", "int|None", "bytes|None")) or (lit in ("int", "float") and not isinstance(a.value, bool) and t in ("str", "bytes", "str|None")) \
+                        or (lit == "bytes" and t in ("int", "str", "int|None")):
+                    out.append((n.lineno, f"`{ast.unparse(n)[:70]}`: a {lit} literal is passed as parameter `{params[i]}: {ann[params[i]]}` of {cq.split('.')[-1]} (arguments out of order)"))
         for i, a in enumerate(n.args):
             nm = a.id if isinstance(a, ast.Name) else (a.attr if isinstance(a, ast.Attribute) and isinstance(a.value, ast.Name) and a.value.id == "self" else None)
             if nm is None or i >= len(params):
